@@ -3,10 +3,11 @@ from vcore import Case
 from dlib import Par, ALL, API_OF, keygen, crate
 
 RULE = ("generated keys, random bytes of the right length, all wrong lengths in {0, 1, n-1, n+1, n+7}, SK only, PK only, PK||SK (swapped order) "
-        "offered as a pair; round trip through every container; sign/verify through re-serialised containers. from_bytes refusing = panic "
+        "offered as a pair, 2n; every case in the checked AND the unchecked builds (a refusal that only a debug assertion makes is no refusal); round trip through every container; sign/verify through re-serialised containers. from_bytes refusing = panic "
         "(model: Panic). Non-trivial = wrong-length or swapped case; distinct (fn,copy,input).")
 ASSUMPTIONS = ["key bytes sampled"]
 TIMEOUT = {"quick": 400, "thorough": 2400}
+ORACLE_ON_RELEASE = True     # a length refused only by a debug assertion is accepted by a release build
 
 
 def gen(tier, rng):
@@ -23,9 +24,9 @@ def gen(tier, rng):
             out.append(Case("kp_roundtrip", api, [pk], ["wrong-length"], aux=("kp", p)))
         out.append(Case("kp_generate", api, [bytes(rng.randrange(256) for _ in range(32))], ["in_domain", "generate"], aux=("gen", p)))
         for fn, n in (("sk_roundtrip", p.sk), ("pk_roundtrip", p.pk), ("kp_roundtrip", p.sk + p.pk)):
-            rb = bytes(rng.randrange(256) for _ in range(n + 8))
+            rb = bytes(rng.randrange(256) for _ in range(2 * n))
             out.append(Case(fn, api, [rb[:n]], ["in_domain", "random-bytes"], aux=(fn[:2], p)))
-            for m in (0, 1, n - 1, n + 1, n + 7):
+            for m in (0, 1, n - 1, n + 1, n + 7, 2 * n):
                 out.append(Case(fn, api, [rb[:m]], ["wrong-length"], aux=(fn[:2], p)))
     return out
 
